@@ -14,8 +14,8 @@ use crate::Ctx;
 use mdv_core::mdparse::{Dump, NormOpts};
 use mdv_core::{json, Report, Value};
 
-const CHANGES: [&str; 11] = ["none", "add-thread", "exit-thread", "rewrite-app-region", "aborted-dump-first", "reconfigure-app-memory", "reconfigure-crash-context", "reconfigure-user-mappings", "reconfigure-principal-mapping", "retarget-to-another-process", "target-killed-unreaped"];
-const OPTSETS: [&str; 7] = ["plain", "crash-context", "app-memory", "skip-unreferenced", "size-limit", "all", "blamed-thread-that-may-exit"];
+const CHANGES: [&str; 13] = ["none", "add-thread", "exit-thread", "rewrite-app-region", "aborted-dump-first", "reconfigure-app-memory", "reconfigure-crash-context", "reconfigure-user-mappings", "reconfigure-principal-mapping", "retarget-to-another-process", "target-killed-unreaped", "shrink-principal-mapping", "regrow-principal-mapping"];
+const OPTSETS: [&str; 8] = ["plain", "crash-context", "app-memory", "skip-unreferenced", "size-limit", "all", "blamed-thread-that-may-exit", "skip-unreferenced-principal-in-data-region"];
 
 fn opts(set: usize, b: &Built, env: &Env) -> DumpOpts {
     let mut o = DumpOpts::default();
@@ -38,6 +38,12 @@ fn opts(set: usize, b: &Built, env: &Env) -> DumpOpts {
             o.sanitize = true;
         }
         6 => o.blamed = Some(b.p.threads[1].tid),
+        7 => {
+            // the principal mapping is the 3-page data region; the extra spin thread's stack holds a pointer
+            // into its LAST page (see run_history)
+            o.skip_unref = true;
+            o.principal = Some(b.pattern_addrs[0] as usize + 16);
+        }
         _ => {}
     }
     o
@@ -80,6 +86,17 @@ fn run_history(set: usize, hist: &[usize]) -> Res {
     let mut shape = Shape::threads(3);
     shape.patterns.push((3, "hole".into(), "rw".into()));
     let mut b = build(&shape);
+    let spin_tid: u64;
+    // an extra spin thread on a dedicated stack that holds one pointer into the LAST page of the data region
+    {
+        use crate::puppet::RSP;
+        let st = b.p.pattern(2, "hole", "rw");
+        let t = b.p.mkthread(Kind::Spin);
+        b.p.set_gpr(t, RSP, st + 0x7c0);
+        spin_tid = b.p.start(t) as u64;
+        b.p.write(st + 0x7c8, &(b.pattern_addrs[0] + 2 * 4096 + 0x40).to_le_bytes());
+        b.p.quiesce();
+    }
     let env = env_of(&mut b);
     let mut o = opts(set, &b, &env);
     let mut reused = make_writer(b.p.pid, &o);
@@ -90,7 +107,7 @@ fn run_history(set: usize, hist: &[usize]) -> Res {
     let mut sig = Vec::new();
     let mut gen = 0u8;
     for (k, ch) in hist.iter().enumerate() {
-        if *ch >= 4 {
+        if *ch >= 4 && *ch <= 9 {
             // the reused writer is manipulated directly from here on: the cross-check oracles must not
             // judge its dumps against the options it was created with
             crate::checks::universal::forget_writer();
@@ -163,6 +180,14 @@ fn run_history(set: usize, hist: &[usize]) -> Res {
                     o.blamed = None;
                 }
             }
+            11 => {
+                // the data region loses its last page (same start, smaller extent)
+                let _ = b.p.cmd(&format!("mprotect {:#x} 4096 ---", b.pattern_addrs[0] + 2 * 4096));
+            }
+            12 => {
+                // ... and gets it back (the kernel merges the pages into one mapping again)
+                let _ = b.p.cmd(&format!("mprotect {:#x} 4096 rw", b.pattern_addrs[0] + 2 * 4096));
+            }
             10 => {
                 // the target dies and is not reaped: a zombie can still be "dumped" (no threads can be walked)
                 unsafe {
@@ -200,8 +225,19 @@ fn run_history(set: usize, hist: &[usize]) -> Res {
                     fails.push((format!("dump{k}/structure/{}", crate::shapes::classify(&e)), format!("dump #{k} of the reused writer: {e}")));
                 }
                 let n = NormOpts { mask_volatile: true };
-                let na = da.normalized(&a, &n);
-                let nf = df.normalized(&f, &n);
+                let mut na = da.normalized(&a, &n);
+                let mut nf = df.normalized(&f, &n);
+                // the spin thread is stopped somewhere in its loop: its instruction pointer (hence its context
+                // hash) differs from dump to dump
+                for v in [&mut na, &mut nf] {
+                    if let Some(ts) = v.get_mut("threads").and_then(|t| t.as_array_mut()) {
+                        for t in ts.iter_mut() {
+                            if t.get("tid").and_then(|x| x.as_u64()) == Some(spin_tid) {
+                                t["context"] = json!("masked (busy thread)");
+                            }
+                        }
+                    }
+                }
                 sig.push(da.memory.len() as u8);
                 sig.push(da.threads.len() as u8);
                 if na != nf {
@@ -251,8 +287,8 @@ pub fn run(ctx: &Ctx, rep: &mut Report) {
             for h in &hists {
                 for c in 0..CHANGES.len() {
                     // at most one re-configuration / retarget step per history (thorough: two in histories of <= 3 steps)
-                    let specials = h.iter().filter(|x| **x >= 5).count();
-                    if c >= 5 && (specials >= 2 || (specials == 1 && !(ctx.tier.is_thorough() && h.len() < 3))) {
+                    let specials = h.iter().filter(|x| **x >= 5 && **x <= 10).count();
+                    if c >= 5 && c <= 10 && (specials >= 2 || (specials == 1 && !(ctx.tier.is_thorough() && h.len() < 3))) {
                         continue;
                     }
                     if c == 9 && !(set == 0 || set == 4) {
@@ -260,6 +296,12 @@ pub fn run(ctx: &Ctx, rep: &mut Report) {
                     }
                     if h.contains(&10) {
                         continue; // nothing follows the death of the target
+                    }
+                    if (c == 11 || c == 12) && set != 7 {
+                        continue;
+                    }
+                    if set == 7 && !(c == 0 || c == 11 || c == 12 || c == 1) {
+                        continue; // this option set is about the principal mapping changing its extent
                     }
                     let mut h2 = h.clone();
                     h2.push(c);
